@@ -110,21 +110,24 @@ Definition expected_params (ps : list (str * option str)) : list (str * str) :=
    (old pairs ++ args)                                                *)
 (* ------------------------------------------------------------------ *)
 Definition pair_eqb (a b : str * str) : bool := str_eqb (fst a) (fst b) && str_eqb (snd a) (snd b).
-Definition url_in_scope (u : str) (args : list (str * str)) : bool :=
+Definition url_in_scope (u : str) : bool :=
+  let '(head, query, frag) := url_parts u in simple_head head.
+(* every code point of the old pairs and of the arguments can be UTF-8 encoded *)
+Definition url_encodable (u : str) (args : list (str * str)) : bool :=
   let '(head, query, frag) := url_parts u in
-  is_ascii_str u && args_ascii args && simple_head head
-  && match parse_qsl query with Some _ => true | None => false end.
+  match urlencode (parse_qsl query ++ args) with Some _ => true | None => false end.
 Definition url_result_ok (u : str) (args : list (str * str)) (r : str) : bool :=
   let '(head, query, frag) := url_parts u in
   let '(h2, q2, f2) := url_parts r in
-  str_eqb h2 head && str_eqb f2 frag
-  && match parse_qsl query, parse_qsl q2 with
-     | Some old, Some new => list_eqb pair_eqb new (old ++ args)
-     | _, _ => false
-     end.
-Definition check_url_concat (u : str) (args : list (str * str)) (o : obs) : bool :=
-  if url_in_scope u args
-  then match o with OBytes r => url_result_ok u args r | _ => false end
+  str_eqb h2 head && str_eqb f2 frag && list_eqb pair_eqb (parse_qsl q2) (parse_qsl query ++ args).
+(* [err] is the observable of UnicodeEncodeError *)
+Definition check_url_concat (err : obs) (u : str) (args : list (str * str)) (o : obs) : bool :=
+  if url_in_scope u
+  then match o with
+       | OBytes r => url_result_ok u args r
+       | OTag _ => obs_eqb o err && negb (url_encodable u args)
+       | _ => false
+       end
   else true.
 
 (* ------------------------------------------------------------------ *)
